@@ -41,6 +41,19 @@ inductive Arr where
   | pulses        -- `pulses[]` (decode_frame.c:70: frame_length rounded up to SHELL_CODEC_FRAME_LENGTH)
   | aTmp          -- A_Q12_tmp[ MAX_LPC_ORDER ]                                      decode_core.c:47
   | quantOffsets  -- silk_Quantization_Offsets_Q10[ 2 ][ 2 ], flattened
+  -- silk_PLC_conceal / silk_PLC_update / silk_CNG (model in OpusModel/SilkSynthIdxFrame.lean)
+  | sLTP_Q14      -- ALLOC( sLTP_Q14, ltp_mem_length + frame_length, opus_int32 )    PLC.c:249
+  | exc_buf       -- ALLOC( exc_buf, 2*subfr_length, opus_int16 )                    PLC.c:199
+  | plcLtp        -- psDec->sPLC.LTPCoef_Q14[ LTP_ORDER ]
+  | prevLPC       -- psDec->sPLC.prevLPC_Q12[ MAX_LPC_ORDER ]
+  | prevGain      -- psDec->sPLC.prevGain_Q16[ 2 ]
+  | aPlc          -- the local A_Q12[ MAX_LPC_ORDER ] of silk_PLC_conceal / silk_CNG
+  | attTab        -- HARM_ATT_Q15 / PLC_RAND_ATTENUATE_*_Q15 [ NB_ATT = 2 ]           PLC.c:40-43
+  | cngExcBuf     -- psDec->sCNG.CNG_exc_buf_Q14[ MAX_FRAME_LENGTH ]
+  | cngSmthNlsf   -- psDec->sCNG.CNG_smth_NLSF_Q15[ MAX_LPC_ORDER ]
+  | cngSynth      -- psDec->sCNG.CNG_synth_state[ MAX_LPC_ORDER ]
+  | cngSig        -- ALLOC( CNG_sig_Q14, length + MAX_LPC_ORDER, opus_int32 )        CNG.c:131
+  | prevNlsf      -- psDec->prevNLSF_Q15[ MAX_LPC_ORDER ]
   deriving DecidableEq, Repr
 
 def Arr.name : Arr → String
@@ -48,10 +61,15 @@ def Arr.name : Arr → String
   | .exc_Q14 => "exc_Q14" | .outBuf => "outBuf" | .sLPC_Q14_buf => "sLPC_Q14_buf"
   | .predCoef => "PredCoef_Q12" | .ltpCoef => "LTPCoef_Q14" | .gains => "Gains_Q16" | .pitchL => "pitchL"
   | .xq => "xq" | .pulses => "pulses" | .aTmp => "A_Q12_tmp" | .quantOffsets => "QuantOffsets"
+  | .sLTP_Q14 => "sLTP_Q14" | .exc_buf => "exc_buf" | .plcLtp => "PLC_LTPCoef_Q14" | .prevLPC => "prevLPC_Q12"
+  | .prevGain => "prevGain_Q16" | .aPlc => "A_Q12" | .attTab => "AttTab" | .cngExcBuf => "CNG_exc_buf_Q14"
+  | .cngSmthNlsf => "CNG_smth_NLSF_Q15" | .cngSynth => "CNG_synth_state" | .cngSig => "CNG_sig_Q14"
+  | .prevNlsf => "prevNLSF_Q15"
 
 def Arr.all : List Arr :=
   [.sLTP, .sLTP_Q15, .res_Q14, .sLPC_Q14, .exc_Q14, .outBuf, .sLPC_Q14_buf, .predCoef, .ltpCoef, .gains,
-   .pitchL, .xq, .pulses, .aTmp, .quantOffsets]
+   .pitchL, .xq, .pulses, .aTmp, .quantOffsets, .sLTP_Q14, .exc_buf, .plcLtp, .prevLPC, .prevGain, .aPlc, .attTab,
+   .cngExcBuf, .cngSmthNlsf, .cngSynth, .cngSig, .prevNlsf]
 
 /-- One access: elements `[lo, hi)` of `arr`, read or written. -/
 structure Acc where
@@ -97,6 +115,18 @@ def Arr.size (c : Cfg) : Arr → Int
       SilkSynth.shellCodecFrameLength
   | .aTmp => SilkSynth.maxLpcOrder
   | .quantOffsets => SilkSynth.szQuantOffsetsRows * SilkSynth.szQuantOffsetsCols
+  | .sLTP_Q14 => c.ltpMem + c.frameLen
+  | .exc_buf => 2 * c.subfr
+  | .plcLtp => SilkSynth.szPlcLtpCoef
+  | .prevLPC => SilkSynth.szPlcPrevLpc
+  | .prevGain => SilkSynth.szPlcPrevGain
+  | .aPlc => SilkSynth.maxLpcOrder
+  | .attTab => 2
+  | .cngExcBuf => SilkSynth.szCngExcBuf
+  | .cngSmthNlsf => SilkSynth.szCngSmthNlsf
+  | .cngSynth => SilkSynth.szCngSynthState
+  | .cngSig => c.frameLen + SilkSynth.maxLpcOrder
+  | .prevNlsf => SilkSynth.szPrevNlsf
 
 /-- The access lies inside the array. -/
 def Acc.inBounds (c : Cfg) (a : Acc) : Prop := 0 ≤ a.lo ∧ a.hi ≤ a.arr.size c
